@@ -25,12 +25,14 @@ func init() {
 		},
 		Run: runC17,
 		Controls: []Control{
+			{Name: "refactor-threshold-written-differently", Silent: true, File: "protocols/bgp/packet/path_attributes.go", Old: "\tlength := uint16(CommunityLen * len(*coms))\n\n\tattrFlags := uint8(0)\n\tattrFlags = setOptional(attrFlags)\n\tattrFlags = setTransitive(attrFlags)\n\tattrFlags = setPartial(attrFlags)\n\tif length > 255 {", New: "\tlength := uint16(CommunityLen * len(*coms))\n\n\tattrFlags := uint8(0)\n\tattrFlags = setOptional(attrFlags)\n\tattrFlags = setTransitive(attrFlags)\n\tattrFlags = setPartial(attrFlags)\n\tif length >= 256 {"},
 			{Name: "extended-flag-per-segment", File: "protocols/bgp/packet/path_attributes.go", Old: "\tif length > 255 {\n\t\tattrFlags = setExtendedLength(attrFlags)\n\t}\n\n\tbuf.WriteByte(attrFlags)\n\tbuf.WriteByte(ASPathAttr)", New: "\tif asnLength > 255 {\n\t\tattrFlags = setExtendedLength(attrFlags)\n\t}\n\n\tbuf.WriteByte(attrFlags)\n\tbuf.WriteByte(ASPathAttr)", Expect: "extended-length-agreement"},
 			{Name: "gate-on-body-length", File: "protocols/bgp/packet/update.go", Old: "\ttotalLength := 2 + withdrawnRoutesLen + totalPathAttributesLen + 2 + nlriBuf.Len() + 19\n\tif totalLength > 4096 {", New: "\ttotalLength := 2 + withdrawnRoutesLen + totalPathAttributesLen + 2 + nlriBuf.Len() + 19\n\tif totalLength-19 > 4096 {", Expect: "size-gate"},
 			{Name: "header-length-omits-field", File: "protocols/bgp/packet/update.go", Old: "\tserializeHeader(buf, uint16(totalLength), UpdateMsg)", New: "\tserializeHeader(buf, uint16(totalLength-2), UpdateMsg)", Expect: "header-length-is-effect"},
 			{Name: "prepend-split-on-segment-count", File: "route/bgp_path.go", Old: "\t\tif len((*b.ASPath)[0].ASNs) >= types.MaxASNsSegment {", New: "\t\tif len(*b.ASPath) == types.MaxASNsSegment {", Expect: "segment-split"},
 			{Name: "unknown-attribute-flag-not-derived", File: "protocols/bgp/packet/path_attributes.go", Old: "\tb := pa.Value.([]byte)\n\tif len(b) > math.MaxUint8 {\n\t\tpa.ExtendedLength = true\n\t}\n", New: "\tb := pa.Value.([]byte)\n", Expect: "length-octet-fits"},
 			{Name: "cluster-list-one-octet-length", File: "protocols/bgp/packet/path_attributes.go", Old: "\tlength := uint16(ClusterIDLen * len(*cids))\n", New: "\tlength := uint16(uint8(ClusterIDLen * len(*cids)))\n", Expect: "length-octet-fits"},
+			{Name: "cluster-list-nil-deref", File: "protocols/bgp/packet/path_attributes.go", Old: "\tif cids == nil || len(*cids) == 0 {", New: "\tif len(*cids) == 0 {", Expect: "nilable-attribute-guarded"},
 			{Name: "communities-length-unguarded", File: "protocols/bgp/packet/path_attributes.go", Old: "\tif length < 256 {\n\t\tbuf.WriteByte(uint8(length))\n\t} else {\n\t\tbuf.Write(convert.Uint16Byte(length))\n\t\tlength++\n\t}\n\n\tfor _, com := range *coms {\n\t\tbuf.Write(convert.Uint32Byte(com))", New: "\tif length < 512 {\n\t\tbuf.WriteByte(uint8(length))\n\t} else {\n\t\tbuf.Write(convert.Uint16Byte(length))\n\t\tlength++\n\t}\n\n\tfor _, com := range *coms {\n\t\tbuf.Write(convert.Uint32Byte(com))", Expect: "length-octet-fits"},
 		},
 	})
@@ -429,6 +431,9 @@ func runC17(c *core.Ctx) {
 		sizeGate(c, f)
 	}
 
+	// (6) attribute values that may be nil are guarded at the producer or in the serializer -------------------------------
+	nilableAttributes(c)
+
 	// (4) segment split ------------------------------------------------------------------------------------------------
 	if f := c.MustFunc("route.(*BGPPath).Prepend"); f != nil {
 		ins := p.Func("route.(*BGPPath).insertNewASSequence")
@@ -762,4 +767,136 @@ func sizeGate(c *core.Ctx, f *core.Fn) {
 	}
 	c.Check(ok, "size-gate", f.Name()+" returns bytes only when the whole message is at most 4096 octets", f.Decl.Pos(),
 		"no dominating test bounds the number of bytes SerializeUpdate appends ("+eff.String()+") by 4096; "+best+": an UPDATE longer than the protocol maximum is emitted and the peer closes the session (Bad Message Length)")
+}
+
+// nilableAttributes: a pointer-typed field of BGPPath that NewBGPPath() leaves nil reaches a serializer as a typed nil
+// inside the Value interface (so `pa.Value == nil` is false).  Either the attribute is only built when the field is
+// non-nil, or the serializer tests the asserted pointer before it dereferences it.
+func nilableAttributes(c *core.Ctx) {
+	p := c.P
+	const rule = "nilable-attribute-guarded"
+	ctor := c.MustFunc("route.NewBGPPath")
+	ser := c.MustFunc(pktPkg + ".(*PathAttribute).Serialize")
+	if ctor == nil || ser == nil {
+		return
+	}
+	set := map[string]bool{}
+	ast.Inspect(ctor.Decl.Body, func(n ast.Node) bool {
+		if kv, ok := n.(*ast.KeyValueExpr); ok {
+			if id, isId := kv.Key.(*ast.Ident); isId {
+				set[id.Name] = true
+			}
+		}
+		return true
+	})
+	// serializer arm per type code
+	arm := map[string]*core.Fn{}
+	ast.Inspect(ser.Decl.Body, func(n ast.Node) bool {
+		cc, ok := n.(*ast.CaseClause)
+		if !ok {
+			return true
+		}
+		for _, e := range cc.List {
+			co := core.ConstObjOf(ser.Pkg, e)
+			if co == nil {
+				continue
+			}
+			for _, call := range core.CallsAll(ser.Pkg, cc, func(o *types.Func) bool { return strings.HasPrefix(o.Name(), "serialize") }) {
+				arm[co.Name()] = p.FnOf(core.Callee(ser.Pkg, call))
+			}
+		}
+		return true
+	})
+	n := 0
+	for _, k := range []string{pktPkg + ".PathAttributes", pktPkg + ".(*PathAttribute).AddOptionalPathAttributes"} {
+		f := p.Func(k)
+		if f == nil {
+			continue
+		}
+		ast.Inspect(f.Decl.Body, func(nd ast.Node) bool {
+			cl, ok := nd.(*ast.CompositeLit)
+			if !ok {
+				return true
+			}
+			if t := f.Pkg.TypesInfo.TypeOf(cl); t == nil || !strings.HasSuffix(t.String(), "packet.PathAttribute") {
+				return true
+			}
+			var val ast.Expr
+			tc := ""
+			for _, el := range cl.Elts {
+				if kv, isKV := el.(*ast.KeyValueExpr); isKV {
+					switch core.ExprString(kv.Key) {
+					case "Value":
+						val = kv.Value
+					case "TypeCode":
+						tc = core.ExprString(kv.Value)
+					}
+				}
+			}
+			if val == nil {
+				return true
+			}
+			fv := core.FieldOf(f.Pkg, val)
+			if fv == nil {
+				return true
+			}
+			if _, isPtr := fv.Type().Underlying().(*types.Pointer); !isPtr || ownerName(fv) != "BGPPath" || set[fv.Name()] {
+				return true
+			}
+			n++
+			construct := "attribute " + tc + " built from the nil-able field BGPPath." + fv.Name()
+			// producer guard
+			for _, ft := range core.CtlFactsAt(f, cl) {
+				if x, isNil := core.IsNilCheck(f.Pkg, ft.Expr); isNil && !ft.Truth && core.FieldOf(f.Pkg, x) == fv {
+					c.Hold(rule, construct, cl.Pos(), "built only when the field is not nil")
+					return true
+				}
+			}
+			g := arm[tc]
+			if g == nil || g.Decl.Body == nil {
+				c.Fail(rule, construct, cl.Pos(), "no serializer arm found for this attribute")
+				return true
+			}
+			// serializer: every dereference of the asserted pointer is behind `v != nil`
+			bad := ""
+			ast.Inspect(g.Decl.Body, func(m ast.Node) bool {
+				st, isStar := m.(*ast.StarExpr)
+				if !isStar {
+					return true
+				}
+				if tv, isT := g.Pkg.TypesInfo.Types[st]; isT && tv.IsType() {
+					return true // a pointer type, not a dereference
+				}
+				guarded := false
+				for _, ft := range core.FactsAt(g, st) {
+					if x, isNil := core.IsNilCheck(g.Pkg, ft.Expr); isNil && !ft.Truth && core.SameExpr(g.Pkg, x, st.X) {
+						guarded = true
+					}
+				}
+				// short circuit: v == nil || …*v…   /   v != nil && …*v…
+				if !guarded {
+					for _, anc := range core.PathTo(g.Decl.Body, st) {
+						be, isB := anc.(*ast.BinaryExpr)
+						if !isB || (be.Op != token.LOR && be.Op != token.LAND) || !(be.Y.Pos() <= st.Pos() && st.End() <= be.Y.End()) {
+							continue
+						}
+						if x, isNil := core.IsNilCheck(g.Pkg, be.X); isNil && core.SameExpr(g.Pkg, x, st.X) {
+							cmp, _ := core.Unparen(be.X).(*ast.BinaryExpr)
+							if cmp != nil && ((be.Op == token.LOR && cmp.Op == token.EQL) || (be.Op == token.LAND && cmp.Op == token.NEQ)) {
+								guarded = true
+							}
+						}
+					}
+				}
+				if !guarded {
+					bad = core.ExprString(st)
+				}
+				return true
+			})
+			c.Check(bad == "", rule, construct, cl.Pos(),
+				"NewBGPPath() leaves BGPPath."+fv.Name()+" nil; the attribute is built regardless and "+g.Name()+" dereferences "+bad+" without a nil test (the `pa.Value == nil` test does not see a typed nil): sending such a path (a redistributed or locally originated route) crashes the update sender and with it the daemon")
+			return true
+		})
+	}
+	c.Check(n >= 3, rule, "attributes built from nil-able fields", token.NoPos, fmt.Sprintf("found %d, floor 3 (communities, large communities, cluster list)", n))
 }
